@@ -19,7 +19,8 @@ PROP = dict(
           dict(name="c04_users", memcheck=500, src=["c04_users.c"], libs=["mptplot", "mptcore"], batch=512, lsan=True,
                floors={"values_prepare:append": 50000, "values_prepare:repeat": 20000, "valfmt_add": 20000, "valfmt_parse": 5000,
                        "state:shared": 20000, "state:shared-with-spare-capacity": 5000, "state:immutable": 2000,
-                       "state:repeat-more-than-stored": 2000, "monitor:all-handle-readbacks": 500000})],
+                       "state:repeat-more-than-stored": 2000, "monitor:all-handle-readbacks": 500000,
+                       "mpt_stage_data": 50000, "state:existing-dimension-of-shared-stage": 5000, "monitor:stage-audits": 100000})],
     rule=("case = one PRNG history of 10..70 (quick) / 10..120 (thorough) operations over 4 array handles + 1 slice handle; "
           "non-trivial = some buffer was shared between handles and >= 3 mutating operations ran while sharing existed; "
           "distinct = 64-bit hash of the operation list with arguments"),
